@@ -23,7 +23,9 @@ import (
 //
 //	pool <npeers> <perPeerLimit> <W>
 //	new <p> <k> <id> <pri> <hook> <n> <miss> <bhplan>      (as in `resplife`)
-//	await <ms>      wait (deadline, no polling) until every request of a peer other than 0 has completed
+//	await <ms>      wait until every request of a peer other than 0 has completed, or the run is provably
+//	                stuck on the stalled peer (all W reservations of the workers wait for peer 0 / the manager
+//	                is parked); <ms> is ignored, a 90 s watchdog only declares `hang`
 //	end
 //
 // Oracle: each script is run twice, once with peer 0 healthy (baseline) and once stalled.  A request
@@ -64,7 +66,11 @@ func GenPool(seed int64, n int, tier string, w *bufio.Writer) {
 	}
 }
 
+// generous: the runs take milliseconds; expiry is reported as a hang, never as starvation
+const poolWatchdog = 90 * time.Second
+
 type poolRun struct {
+	hung     bool
 	e        *engine
 	doneIDs  map[int]bool
 	others   []int // ids of requests of peers != 0
@@ -141,7 +147,11 @@ func runPoolOnce(c reg.Case, stalled bool) *poolRun {
 				pr.lines = append(pr.lines, "bad")
 				continue
 			}
-			deadline := time.NewTimer(time.Duration(atoi(op[1])) * time.Millisecond)
+			// No wall-clock decision: wait until every request of the other peers has completed, or until
+			// the run is PROVABLY stuck on the stalled peer (all W workers' reservations wait for peer 0's
+			// memory, which is never released; or the manager goroutine is parked in a reservation).  The
+			// argument of `await` is ignored; a generous watchdog only ever declares a hang.
+			watchdogT := time.NewTimer(poolWatchdog)
 			for {
 				e.mu.Lock()
 				for _, ev := range e.events {
@@ -159,17 +169,24 @@ func runPoolOnce(c reg.Case, stalled bool) *poolRun {
 				if all {
 					break
 				}
+				if stalled && e.waitingFor(0) >= W {
+					break
+				}
+				if _, mgr := workersParkedInReservation(); mgr && stalled {
+					break
+				}
 				timedOut := false
 				select {
 				case <-e.evCh:
-				case <-deadline.C:
+				case <-watchdogT.C:
 					timedOut = true
 				}
 				if timedOut {
+					pr.hung = true
 					break
 				}
 			}
-			deadline.Stop()
+			watchdogT.Stop()
 			pr.parkedWk, pr.mgrPark = workersParkedInReservation()
 			served := 0
 			for _, id := range pr.others {
@@ -203,6 +220,10 @@ func RunPool(cases []reg.Case, out *reg.Out) {
 		st := runPoolOnce(c, true)
 		for _, l := range st.lines {
 			out.Line("%s", l)
+		}
+		if base.hung || st.hung {
+			out.Fail("hang", "the pool run made no progress for %v (baseline hung=%v, stalled run hung=%v) without the workers or the manager being parked on the stalled peer; goroutines: %s", poolWatchdog, base.hung, st.hung, dumpGoroutines("AllocateAndBuildMessage", "responsemanager.(*ResponseManager).run", "taskqueue.(*WorkerTaskQueue).worker"))
+			continue
 		}
 		for _, id := range base.others {
 			if base.doneIDs[id] && !st.doneIDs[id] {
